@@ -30,8 +30,8 @@ from .. import c05_gen as G, c05_ops as O, fingerprint as F, harness as H, snap 
 from ..evidence import Run, canon_hash
 
 PID = "C05"
-SHARDS = {"quick": 6, "thorough": 16}
-N = {"quick": 360, "thorough": 12000}
+SHARDS = {"quick": 8, "thorough": 16}
+N = {"quick": 288, "thorough": 9600}
 SHARD_TIMEOUT = {"quick": 300, "thorough": 1700}
 
 
@@ -133,9 +133,14 @@ def classify(w):
             "update_checks", "set_checks") and d.startswith("$.checks"):
         return "shallow-copy-shares-dict-update_checks-mutates-receiver"
     # D10: parse_checks aliases Check.statistics and adds "options"
-    if ".statistics." in d and after.get("options_in_statistics") and op["op"] in (
-            "statistics", "to_script", "to_yaml", "to_json", "yaml_roundtrip_eq",
-            "model_to_yaml"):
+    # (to_yaml / to_json pop the key again on the unchanged tree, so only the
+    # call sites that leave it behind are attributed to this mechanism:
+    # get_*_schema_statistics, to_script for frame-level checks, and a
+    # to_script that raised before its formatter popped the key)
+    if ".statistics." in d and after.get("options_in_statistics") and (
+            op["op"] == "statistics"
+            or (op["op"] == "to_script" and (d.startswith("$.checks[")
+                                             or w.get("op_raised")))):
         return "parse_checks-writes-options-into-check-statistics"
     if spec["backend"] != "pandas":
         return None
